@@ -482,3 +482,54 @@ pub fn run_states_seed(prog: &Program, cfg: &RunCfg, with_reify: bool, invariant
         o
     })
 }
+
+/// Run a query and hand every answer to `on_answer(answer, steps so far)` as it arrives; stops
+/// when the callback returns true, the stream ends, `max_answers` is reached or the step budget
+/// trips. Answers seen so far survive a budget overrun.
+pub fn run_query_until(prog: &Program, step_budget: u64, max_answers: usize, on_answer: &mut dyn FnMut(&Ans, u64) -> bool) -> RunOut {
+    trace("run_query_until", prog);
+    let mut out = RunOut::default();
+    let _ = take_last_panic();
+    let _ = verif::take_paths();
+    verif::reset(step_budget);
+    let n = RefCell::new(0usize);
+    let ended = RefCell::new(false);
+    let cb = RefCell::new(on_answer);
+    let r = catch_unwind(AssertUnwindSafe(|| {
+        let b = Builder::new(prog);
+        let mut env = Env::new();
+        let (qvars, goal) = b.query_goal(&mut env);
+        let query: Query<R, U, E> = Query::new(qvars, goal);
+        let mut it = query.run_with_user(Mon::default(), ());
+        while *n.borrow() < max_answers {
+            match it.next() {
+                Some(res) => {
+                    let (a, _raw) = convert_answer(&res, false);
+                    *n.borrow_mut() += 1;
+                    let stop = (&mut *cb.borrow_mut())(&a, verif::steps());
+                    if stop {
+                        break;
+                    }
+                }
+                None => {
+                    *ended.borrow_mut() = true;
+                    break;
+                }
+            }
+        }
+    }));
+    out.steps = verif::steps();
+    out.top_steps = verif::top_steps();
+    out.paths = Some(verif::take_paths());
+    verif::reset(u64::MAX);
+    out.ended = ended.into_inner();
+    if let Err(e) = r {
+        if e.is::<verif::StepBudgetExceeded>() {
+            out.budget_exceeded = true;
+            let _ = take_last_panic();
+        } else {
+            out.panic = Some(take_last_panic().unwrap_or_default());
+        }
+    }
+    out
+}
